@@ -17,6 +17,7 @@ CONTRACTS = [
     "pendulum.date.Date.quarter",
     "pendulum.date.Date.is_leap_year",
     "pendulum.date.Date.is_long_year",
+    "pendulum.date.Date.week_of_month",
 ]
 
 LEMMAS = []
